@@ -14,11 +14,14 @@
 (*   Emit(h)   produce one unit of telemetry through the h-th handle       *)
 (*             obtained so far (a span / a counter increment that is then  *)
 (*             collected / a log record)                                   *)
-(* Observable: pointer identity between the new handle and the earlier     *)
-(* handles requested with the SAME arguments (whether handles of           *)
-(* different arguments are distinct objects is not stated and not          *)
-(* compared), and whether the telemetry arrives at the exporter/reader     *)
-(* under the scope of the handle.                                          *)
+(* Observable: pointer identity between the new handle and EVERY earlier    *)
+(* handle (same arguments <=> same object: an object shared by two         *)
+(* different scope identities would carry the wrong scope and the wrong    *)
+(* configurator decision for one of them), and whether the telemetry       *)
+(* arrives at the exporter/reader under the scope of the handle.           *)
+(* Abstract scope identities are distinct tuples; the replayer also maps   *)
+(* them to concrete identities that are RELATED (concatenations of the     *)
+(* fields coincide, one field a prefix of another, empty fields).          *)
 (*                                                                         *)
 (* Named deviation: getlogger-disabled-scope-new-object - LoggerProvider:: *)
 (* GetLogger for a scope the configurator disables returns a NEW logger    *)
@@ -68,7 +71,10 @@ Init == /\ signal \in SignalSet /\ rules \in RuleLists /\ dflt \in BOOLEAN
         /\ objs = <<>> /\ nobj = 0 /\ handles = <<>> /\ attempts = <<>> /\ emitted = <<>>
         /\ devUsed = {} /\ hist = <<>>
 
-SameArgs(sc) == {h \in 1..Len(handles) : handles[h].scope = sc}
+\* the identity contract: two requests share an object iff name, version, schema and attributes agree
+MustShare(a, b) == a = b
+SameArgs(sc) == {h \in 1..Len(handles) : MustShare(handles[h].scope, sc)}
+Earlier == 1..Len(handles)
 F13(sc) == signal = "logs" /\ ~Enabled(sc)
 
 Askable(sc) == sc.attr = "" \/ signal = "logs"    \* ABI v1: only GetLogger takes scope attributes
@@ -79,7 +85,7 @@ GetIdeal(sc) ==
      /\ nobj' = IF sc \in DOMAIN objs THEN nobj ELSE nobj + 1
      /\ handles' = Append(handles, [scope |-> sc, obj |-> o])
   /\ UNCHANGED <<signal, rules, dflt, attempts, emitted, devUsed>>
-  /\ Rec([op |-> "get", scope |-> sc, cmp |-> SameArgs(sc), exp |-> SameArgs(sc),
+  /\ Rec([op |-> "get", scope |-> sc, cmp |-> Earlier, exp |-> SameArgs(sc),
           alts |-> IF F13(sc) /\ SameArgs(sc) # {}
                      THEN {[dev |-> {"getlogger-disabled-scope-new-object"}, same |-> {}]} ELSE {}])
 \* what the unchanged LoggerProvider does for a disabled scope: a fresh object every time
@@ -91,7 +97,7 @@ GetDev(sc) ==
   /\ handles' = Append(handles, [scope |-> sc, obj |-> nobj + 1])
   /\ devUsed' = devUsed \cup {"getlogger-disabled-scope-new-object"}
   /\ UNCHANGED <<signal, rules, dflt, attempts, emitted>>
-  /\ Rec([op |-> "get", scope |-> sc, cmp |-> SameArgs(sc), exp |-> SameArgs(sc),
+  /\ Rec([op |-> "get", scope |-> sc, cmp |-> Earlier, exp |-> SameArgs(sc),
           alts |-> {[dev |-> {"getlogger-disabled-scope-new-object"}, same |-> {}]}])
 Get == \E sc \in ScopeSet : GetIdeal(sc)
 GetD == \E sc \in ScopeSet : GetDev(sc)
@@ -128,6 +134,9 @@ DifferentlyNamedUnaffected ==
 \* same name/version/schema/attributes -> same object
 SameArgsSameObject ==
   devUsed = {} => \A a, b \in 1..Len(handles) : handles[a].scope = handles[b].scope => handles[a].obj = handles[b].obj
+\* different name/version/schema/attributes -> a different object (with its own scope and config)
+DifferentArgsDifferentObject ==
+  \A a, b \in 1..Len(handles) : handles[a].scope # handles[b].scope => handles[a].obj # handles[b].obj
 \* with the deviation allowed, identity can only break the way the deviation says
 DevNarrow ==
   \A a, b \in 1..Len(handles) : (handles[a].scope = handles[b].scope /\ handles[a].obj # handles[b].obj)
@@ -148,7 +157,8 @@ RuleTags(sc) ==
        [] t = "byname"   -> ms # {} /\ rules[CHOOSE k \in ms : \A j \in ms : k <= j].m.k = "name"
        [] t = "bycond"   -> ms # {} /\ rules[CHOOSE k \in ms : \A j \in ms : k <= j].m.k # "name"}
 Sweep == PrintT(<<"BEHS", ToJson([signal |-> signal, rules |-> rules, dflt |-> dflt,
-                                  cases |-> {[scope |-> sc, enabled |-> Enabled(sc), tags |-> RuleTags(sc)] :
+                                  cases |-> {[scope |-> sc, enabled |-> Enabled(sc), tags |-> RuleTags(sc),
+                                              shares |-> {o \in ScopeSet \ {sc} : Askable(o) /\ MustShare(o, sc)}] :
                                                sc \in {sc \in ScopeSet : Askable(sc)}}])>>)
 EmitSweep == (handles = <<>>) => Sweep
 Done    == Len(handles) = MaxGets /\ Len(attempts) = MaxEmits
@@ -180,7 +190,10 @@ SAt == Sc("A", "1.0", "t", "")
 SAa == Sc("A", "1.0", "s", "a")     \* with scope attributes (only GetLogger takes them in ABI v1)
 SB  == Sc("B", "1.0", "", "")
 SC  == Sc("C", "", "", "")
+SAe == Sc("A", "", "t", "")         \* empty version
+SBs == Sc("B", "", "s", "")
 Scopes5   == {SA1, SA2, SAt, SB, SC}
+Scopes7   == {SA1, SA2, SAt, SB, SC, SAe, SBs}
 Scopes3   == {SA1, SB, SC}
 ScopesLog == {SA1, SAa, SB}
 Matchers5 == {Mt("name", "A"), Mt("name", "B"), Mt("ver", "1.0"), Mt("any", ""), Mt("none", "")}
